@@ -349,6 +349,10 @@ func (r *messageSetReader) readMessageV2(_ int64, key readBytesFunc, val readByt
 	}
 	lastOffset = r.header.firstOffset + int64(r.header.v2.lastOffsetDelta)
 	r.lengthRemain -= int(length) + lengthOfLength
+	if r.count == 1 {
+		// this was the last record of the batch
+		r.batchEnd = lastOffset + 1
+	}
 	r.markRead()
 	return
 }
